@@ -424,6 +424,14 @@ def run(ctx, chk):
              "early way out for a block the item already holds - and obtain or release no memory (what is serialized is the payload and length last attached)")
     import rules as _rsh
     _rsh.check_set_handle(chk, "C03.set-handle", prog, eff)
+    # the size the allocating serializer asks for is part of what "serialization emits": a tree whose size comes out as 0 is not
+    # serialized at all by cbor_serialize_alloc (shared with C07.size-*)
+    chk.rule("C03.size-leaf", "cbor_serialized_size returns for every leaf type/width the length the matching encoder writes (shared with C07)")
+    chk.rule("C03.size-header", "_cbor_encoded_header_size partitions the values exactly like the shortest-form selector (shared with C07)")
+    chk.rule("C03.size-sum", "composite sizes are header (or 2 for indefinite) plus members, combined only through the signalling add: an empty "
+                             "indefinite item is 2 bytes, never the overflow signal (shared with C07)")
+    from props.c07 import check_size as _check_size3
+    _check_size3(chk, prog, eff, cache, H, prefix="C03")
     chk.rule("C03.narrowing", "no 64-bit quantity is converted to a narrower integer type except to take one byte of it or below a range test that makes "
              "the conversion lossless (the head, the space test and the copy all use the item's whole length; shared with C02.narrowing)")
     import rules as _rnw2
